@@ -13,7 +13,7 @@ CONSTANTS
   DelLo = {0, 3, 6, 9}
   DelHi = {2, 5, 8, 14}
   MaxPend = 3
-  AllowKF = {"KF-C20-1", "KF-C20-2", "KF-C20-3", "KF-C20-4", "KF-C01-2", "KF-C01-5"}
+  AllowKF = {"KF-C20-1", "KF-C20-2", "KF-C20-3", "KF-C20-4", "KF-C20-7", "KF-C01-2", "KF-C01-5"}
   KFInitOpts = FALSE
   KFV1Hist = FALSE
   PreT = {}
